@@ -89,7 +89,7 @@ ALL_OPS = [  # (op, noreply variants)
     ("incr", (None, True)), ("decr", (None, True)), ("touch", (None, False)), ("flush_all", (None, False)),
     ("version", (None,)), ("stats", (None,)), ("raw_command", (None,)), ("cache_memlimit", (None,)),
     ("quit", (None,)), ("flush_all_delay", (None, False)), ("set_many_twin", (None, False)), ("shutdown", (None,)),
-    ("incr_nrnone", (None,)), ("decr_nrnone", (None,)), ("shutdown_graceful", (None,)),
+    ("incr_nrnone", (None,)), ("decr_nrnone", (None,)), ("shutdown_graceful", (None,)), ("raw_command_stats", (None,)),
 ]
 
 
@@ -103,7 +103,7 @@ def has_op(kind, op):
     if op == "getitem_miss":
         return kind in ("client", "pooled")
     if kind in ("hash", "hashpooled"):
-        return op not in ("version", "raw_command", "cache_memlimit", "shutdown", "shutdown_graceful")
+        return op not in ("version", "raw_command", "raw_command_stats", "cache_memlimit", "shutdown", "shutdown_graceful")
     if kind == "pooled":
         return op not in ("cache_memlimit",)
     return True
@@ -177,7 +177,7 @@ class Stack:
             args, kw = op_call("flush_all", nr, self.cfg.kind)
         elif op == "set_many_twin":
             args, kw = op_call("set_many_twin", nr, self.cfg.kind)
-        elif op in ("incr_nrnone", "decr_nrnone", "shutdown_graceful"):
+        elif op in ("incr_nrnone", "decr_nrnone", "shutdown_graceful", "raw_command_stats"):
             args, kw = (), {}
         else:
             args, kw = op_call(op, nr, self.cfg.kind)
@@ -194,6 +194,8 @@ class Stack:
                 val = getattr(self.client, op[:4])(K1, 1, noreply=None)      # None is falsy: the call waits for the number
             elif op == "shutdown_graceful":
                 val = self.client.shutdown(graceful=True)
+            elif op == "raw_command_stats":
+                val = self.client.raw_command(b"stats", b"END\r\n")      # a reply that ends with a token of its own
             else:
                 val = getattr(self.client, op)(*args, **kw)
         except BaseException as exc:   # noqa: B902 -- the harness must see interrupts too
@@ -262,6 +264,11 @@ REPLY_FAULTS = ["error", "client_error", "server_error", "garbage", "badvalue", 
 INTERRUPT_KINDS = ["kbd", "sysexit", "gevent"]
 
 
+# raw_command() with an end token of the caller's: a reply that never contains the token (an error line, garbage) makes the
+# call wait for it -- the known finding recorded under C19 (its only user in the library); socket-level faults only here
+NO_REPLY_FAULTS = ("raw_command_stats",)
+
+
 def fault_plans(cfg, warm, op, nr, interrupts=False, trunc_all=False):
     """All single-fault plans for one call: every socket call of the operation x applicable kinds,
     every command's reply x {error lines, garbage, truncation points}."""
@@ -281,7 +288,7 @@ def fault_plans(cfg, warm, op, nr, interrupts=False, trunc_all=False):
         if counters.get("sendall"):
             first.append({("sendall", 1): "timeout"})
         for (cid, idx, nbytes) in units[:2]:
-            if nbytes:
+            if nbytes and op not in NO_REPLY_FAULTS:
                 first += [{("reply", idx): "garbage"}, {("reply", idx): ("trunc", max(0, nbytes // 2), False)}]
         for k in range(1, counters.get("sendall", 0) + 1):
             for kind in INTERRUPT_KINDS:
@@ -290,7 +297,7 @@ def fault_plans(cfg, warm, op, nr, interrupts=False, trunc_all=False):
             for kind in INTERRUPT_KINDS:
                 plans.append({**fp, ("close", 1): ("pre", kind)})
                 plans.append({**fp, ("close", 1): kind})
-    if not interrupts:
+    if not interrupts and op not in NO_REPLY_FAULTS:
         for (cid, idx, nbytes) in units:
             if nbytes == 0:
                 continue
